@@ -138,6 +138,18 @@ def F(x) -> Fraction:
     return Fraction(float(x))
 
 
+def D(x) -> Fraction:
+    """shortest-round-trip decimal of a double, as an exact rational.  This is the abstraction under which
+    library rows are handed to the store model: it is injective on doubles, maps the double nearest to a
+    short decimal back to that decimal (so the model's exact decimal rounding and the implementation's
+    `round()` results coincide), and differs from the exact binary value by < 1 ulp."""
+    if isinstance(x, Fraction):
+        return x
+    if isinstance(x, int):
+        return Fraction(x)
+    return Fraction(repr(float(x)))
+
+
 def dec(s: str) -> Fraction:
     """exact value of a decimal string"""
     return Fraction(s)
